@@ -2,6 +2,7 @@ package vt
 
 import (
 	"encoding/json"
+	"fmt"
 	"io"
 	"sync"
 	"testing"
@@ -35,6 +36,8 @@ type c18Result struct {
 	// concurrent cases: everything read until EOF, and whether EOF came
 	All []int `json:"all,omitempty"`
 	EOF bool  `json:"eof,omitempty"`
+	// a goroutine was left blocked for ever, or the code panicked
+	Panic string `json:"panic,omitempty"`
 }
 
 func errCode(err error) int {
@@ -50,6 +53,9 @@ func errCode(err error) int {
 }
 
 func toBytes(xs []int) []byte {
+	if len(xs) == 0 {
+		return nil // a zero-length write with a nil argument (e.g. Bytes() of a fresh bytes.Buffer)
+	}
 	b := make([]byte, len(xs))
 	for i, x := range xs {
 		b[i] = byte(x)
@@ -75,13 +81,23 @@ func runC18(t *testing.T, raw []byte) []c18Result {
 	res := make([]c18Result, len(in.Cases))
 	for i := range in.Cases {
 		c := &in.Cases[i]
-		synctest.Test(t, func(t *testing.T) {
-			if c.Conc {
-				res[i] = c18Concurrent(c)
-			} else {
-				res[i] = c18Scripted(c)
-			}
-		})
+		func() {
+			defer func() {
+				if r := recover(); r != nil {
+					res[i].Panic = fmt.Sprint(r)
+					if len(res[i].Panic) > 300 {
+						res[i].Panic = res[i].Panic[:300]
+					}
+				}
+			}()
+			synctest.Test(t, func(t *testing.T) {
+				if c.Conc {
+					res[i] = c18Concurrent(c)
+				} else {
+					res[i] = c18Scripted(c)
+				}
+			})
+		}()
 	}
 	return res
 }
